@@ -154,23 +154,30 @@ Qed.
 (* well-formedness, unpacked                                          *)
 (* ------------------------------------------------------------------ *)
 Definition req_ok (st : N) (r : request) : Prop :=
-  rq_kind r = kind_of_stype st /\ rq_full r = (st =? 5)
+  rq_kind r = kind_of_stype st
   /\ (forall d, rq_def r = Some d -> wf_headers (rd_headers d) = true /\ wf_headers (rd_trailers d) = true).
+
+(* full_duplex of the first message (the only one any peer reads) matches the stream type *)
+Definition first_full (st : N) (reqs : list request) : Prop :=
+  match reqs with [] => True | r :: _ => rq_full r = (st =? 5) end.
 
 Lemma wf_unpack tc : wf tc = true ->
   (1 <= t_stype tc <= 5) /\ wf_headers (t_reqheaders tc) = true
   /\ Forall (req_ok (t_stype tc)) (t_requests tc)
+  /\ first_full (t_stype tc) (t_requests tc)
   /\ (t_stype tc = 1 \/ t_stype tc = 3 -> exists r, t_requests tc = [r]).
 Proof.
-  unfold wf. rewrite !andb_true_iff. intros [[[[E _] H] F] L].
+  unfold wf. rewrite !andb_true_iff. intros [[[[[E _] H] F] FF] L].
   unfold expandable in E. apply andb_true_iff in E. destruct E as [E1 E2].
   apply N.leb_le in E1. apply N.leb_le in E2.
-  split; [lia|]. split; [exact H|]. split.
+  split; [lia|]. split; [exact H|]. split; [|split].
   - apply Forall_forall. intros r Hr. rewrite forallb_forall in F. specialize (F r Hr).
-    rewrite !andb_true_iff in F. destruct F as [[K Fu] D].
-    apply N.eqb_eq in K. apply Bool.eqb_prop in Fu.
-    split; [exact K|]. split; [exact Fu|]. intros d Hd. rewrite Hd in D.
+    rewrite !andb_true_iff in F. destruct F as [K D].
+    apply N.eqb_eq in K.
+    split; [exact K|]. intros d Hd. rewrite Hd in D.
     unfold wf_def in D. apply andb_true_iff in D. exact D.
+  - unfold first_full_ok in FF. unfold first_full. destruct (t_requests tc) as [|r l]; [exact Logic.I|].
+    apply Bool.eqb_prop in FF. exact FF.
   - intros [S|S]; rewrite S in L; simpl in L; apply Nat.eqb_eq in L;
       destruct (t_requests tc) as [|r [|]]; try discriminate; eexists; reflexivity.
 Qed.
@@ -481,7 +488,7 @@ Section Met.
     forall sv cl, agree (case_def tc) e (observed tr_req tr_rsp (server_of sv) (client_of cl) tc).
   Proof.
     intros tc e WF KC EX sv cl.
-    destruct (wf_unpack tc WF) as (RNG & WH & RQ & ONE).
+    destruct (wf_unpack tc WF) as (RNG & WH & RQ & FF & ONE).
     unfold observed, case_def.
     replace (server_of sv (t_stype tc) (tr_req (t_reqheaders tc)) (t_requests tc))
       with (ref_server (t_stype tc) (tr_req (t_reqheaders tc)) (t_requests tc))
@@ -498,7 +505,7 @@ Section Met.
       destruct (ONE (or_introl S1)) as [r ER]. rewrite ER in *.
       rewrite (first_def_wf (t_stype tc) true [r] RQ (or_introl S1)) in EX.
       unfold ref_server. rewrite S1. simpl N.eqb. cbv iota. unfold srv_unary.
-      inversion RQ as [|? ? [_ [_ WD]] _]; subst.
+      inversion RQ as [|? ? [_ WD] _]; subst.
       pose proof (unary_core 1 (length [r]) (rq_def r) [req_any r] hs hs' cl (or_introl eq_refl) I RES WD) as A.
       destruct (rq_def r) as [d|]; [destruct (rd_err d)|]; inversion EX; subst; exact A.
     - (* client stream *)
@@ -508,7 +515,7 @@ Section Met.
       rewrite recv_all_spec. simpl app.
       set (d0 := match t_requests tc with [] => None | r :: _ => rq_def r end).
       assert (WD : forall d, d0 = Some d -> wf_headers (rd_headers d) = true /\ wf_headers (rd_trailers d) = true).
-      { unfold d0. destruct (t_requests tc) as [|r l]; [discriminate|]. inversion RQ as [|? ? [_ [_ W]] _]; subst. exact W. }
+      { unfold d0. destruct (t_requests tc) as [|r l]; [discriminate|]. inversion RQ as [|? ? [_ W] _]; subst. exact W. }
       pose proof (unary_core 2 (length (t_requests tc)) d0 (reqs_any (t_requests tc)) hs hs' cl (or_intror eq_refl) I RES WD) as A.
       unfold d0 in *. destruct (t_requests tc) as [|r l]; [inversion EX; subst; exact A|].
       destruct (rq_def r) as [d|]; [destruct (rd_err d)|]; inversion EX; subst; exact A.
@@ -528,7 +535,8 @@ Section Met.
         { destruct (N.eqb_spec (t_stype tc) 3) as [E3|]; [|reflexivity].
           destruct (ONE (or_intror E3)) as [r Er]. discriminate. }
         rewrite N3. simpl. apply empty_core. exact SK. }
-      inversion RQ as [|? ? [_ [FU WD]] RQ']; subst.
+      inversion RQ as [|? ? [_ WD] RQ']; subst.
+      assert (FU : rq_full r0 = (t_stype tc =? 5)) by (first [exact FF | rewrite ER in FF; exact FF]).
       destruct (rq_def r0) as [d|] eqn:D.
       2:{ inversion EX; subst.
           destruct (t_stype tc =? 3) eqn:E3.
@@ -597,7 +605,7 @@ Qed.
 
 Lemma expected_defined_proof : forall tc, wf tc = true -> exists e, expected tc = Ok e.
 Proof.
-  intros tc WF. destruct (wf_unpack tc WF) as (RNG & _ & RQ & _).
+  intros tc WF. destruct (wf_unpack tc WF) as (RNG & _ & RQ & _ & _).
   assert (ST : t_stype tc = 1 \/ t_stype tc = 2 \/ stream_kind (t_stype tc)) by (unfold stream_kind; lia).
   unfold expected. destruct ST as [S|[S|SK]].
   - rewrite S. simpl. unfold expected_unary. rewrite (first_def_wf (t_stype tc) true _ RQ (or_introl S)).
@@ -612,4 +620,145 @@ Proof.
     destruct (t_requests tc) as [|r l]; [eexists; reflexivity|].
     destruct (rq_def r) as [d|]; [|eexists; reflexivity].
     destruct (expected_stream_payloads_ok tc (rd_data d) 0) as [ps ->]. eexists; reflexivity.
+Qed.
+
+(* ------------------------------------------------------------------ *)
+(* the transport hypotheses are satisfiable: two instances            *)
+(* ------------------------------------------------------------------ *)
+Lemma has_dup_app_r a b : has_dup (a ++ b) = false -> has_dup b = false.
+Proof. induction a as [|x a IH]; simpl; [auto|]. intros H. apply orb_false_iff in H. apply IH, H. Qed.
+
+Lemma nodup_later_differ pre h post :
+  has_dup (map lname (pre ++ h :: post)) = false -> Forall (fun h' => lname h' <> lname h) post.
+Proof.
+  intros ND. rewrite map_app in ND. apply has_dup_app_r in ND. simpl in ND.
+  apply orb_false_iff in ND. destruct ND as [M _].
+  apply Forall_forall. intros h' Hh' E.
+  assert (I : In (lname h) (map lname post)) by (rewrite <- E; apply in_map; exact Hh').
+  apply mem_bytes_in in I. congruence.
+Qed.
+
+Lemma nodup_included hs : has_dup (map lname hs) = false -> included hs hs.
+Proof.
+  intros ND h Hin. apply in_split in Hin. destruct Hin as (pre & post & ->).
+  exists (h_vals h). split; [|reflexivity].
+  apply carries_intro; [reflexivity|]. exact (nodup_later_differ _ _ _ ND).
+Qed.
+
+Lemma dedup_nodup l : NoDup (dedup l).
+Proof.
+  induction l as [|x l IH]; simpl; [constructor|].
+  destruct (mem_bytes x l) eqn:E; [exact IH|]. constructor; [|exact IH].
+  rewrite dedup_in. intros I. apply mem_bytes_in in I. congruence.
+Qed.
+
+(* the single bag of a failed call carries, under every name the response set, header values then trailer values *)
+Lemma meta_merge_carries H T n :
+  In n (map lname H ++ map lname T) -> carries (meta_merge H T) n (all_vals H n ++ all_vals T n).
+Proof.
+  intros I. unfold meta_merge.
+  set (ks := dedup (map lname H ++ map lname T)).
+  assert (LOW : forall k, In k ks -> lower k = k).
+  { intros k Hk. unfold ks in Hk. rewrite dedup_in, <- map_app, in_map_iff in Hk.
+    destruct Hk as (h & <- & _). apply lower_idem. }
+  assert (ND : NoDup ks) by apply dedup_nodup.
+  assert (Ik : In n ks) by (unfold ks; rewrite dedup_in; exact I).
+  destruct (in_split _ _ Ik) as (pre & post & E). rewrite E in *. rewrite map_app. simpl map.
+  apply (carries_intro (map _ pre) (mkH n (all_vals H n ++ all_vals T n)) (map _ post) n); [reflexivity|].
+  apply Forall_forall. intros h' Hh' EQ. apply in_map_iff in Hh'. destruct Hh' as (k & <- & Hk). simpl in EQ.
+  rewrite (LOW k), (LOW n) in EQ by (apply in_or_app; simpl; tauto). subst k.
+  apply NoDup_remove_2 in ND. apply ND. apply in_or_app. right. exact Hk.
+Qed.
+
+Lemma transport_id_proof : transport_ok id_hdrs id_wire.
+Proof.
+  constructor; unfold id_hdrs, id_wire; try reflexivity.
+  - intros hs W. apply nodup_included, wf_headers_nodup, W.
+  - intros w W. apply nodup_included, wf_headers_nodup, W.
+  - intros w W. apply nodup_included, wf_headers_nodup, W.
+  - intros w _ _ _ n I. eexists. split; [apply meta_merge_carries; exact I|reflexivity].
+Qed.
+
+(* a transport that behaves like an HTTP stack: names arrive in lower case, the values of a field joined with ", " *)
+Definition join_hdr (h : header) : header := mkH (lower (h_name h)) [join_with (comma_sep false true) (h_vals h)].
+Definition join_hdrs (hs : list header) : list header := map join_hdr hs.
+Definition join_wire (w : wire) : wire := mkW (join_hdrs (w_headers w)) (join_hdrs (w_trailers w)) (w_msgs w) (w_err w).
+
+Lemma rev_last (v : bytes) d : v <> [] -> rev v = last v d :: rev (removelast v).
+Proof.
+  intros NE. transitivity (rev (removelast v ++ [last v d])).
+  - f_equal. apply app_removelast_last. exact NE.
+  - rewrite rev_app_distr. reflexivity.
+Qed.
+
+Lemma vchar_facts c : is_vchar c = true -> c <> comma /\ c <> space.
+Proof.
+  unfold is_vchar, comma, space. rewrite !andb_true_iff, negb_true_iff. intros [[A B] C].
+  apply N.leb_le in A. apply N.eqb_neq in C. split; [exact C|lia].
+Qed.
+
+Lemma value_ok_clean v : value_ok v = true -> clean v.
+Proof.
+  destruct v as [|c v']; [discriminate|]. unfold value_ok. rewrite !andb_true_iff. intros [[F L] A].
+  split; [|split].
+  - intros I. rewrite forallb_forall in A. specialize (A _ I). unfold comma in A. vm_compute in A. discriminate.
+  - simpl. intros E. inversion E. apply vchar_facts in F. tauto.
+  - rewrite (rev_last (c :: v') 0) by discriminate. simpl hd_error. intros E. inversion E as [E'].
+    apply vchar_facts in L. tauto.
+Qed.
+
+Lemma header_ok_join h : header_ok h = true -> canon_vals [join_with (comma_sep false true) (h_vals h)] = canon_vals (h_vals h).
+Proof.
+  unfold header_ok. rewrite !andb_true_iff, negb_true_iff. intros [[_ NE] V].
+  assert (F : Forall clean (h_vals h)).
+  { apply Forall_forall. intros v Hv. apply value_ok_clean. rewrite forallb_forall in V. apply V. exact Hv. }
+  assert (N : h_vals h <> []) by (intros E; rewrite E in NE; discriminate).
+  destruct (canon_join_proof false true (h_vals h) N F) as [A B]. rewrite A, B. reflexivity.
+Qed.
+
+Lemma lname_join h : lname (join_hdr h) = lname h.
+Proof. unfold lname, join_hdr. simpl. apply lower_idem. Qed.
+
+Lemma names_join hs : map lname (join_hdrs hs) = map lname hs.
+Proof. unfold join_hdrs. rewrite map_map. apply map_ext. exact lname_join. Qed.
+
+Lemma canon_app a b : canon_vals (a ++ b) = canon_vals a ++ canon_vals b.
+Proof. unfold canon_vals. apply flat_map_app. Qed.
+
+Lemma all_vals_join X n : forallb header_ok X = true ->
+  canon_vals (all_vals (join_hdrs X) n) = canon_vals (all_vals X n).
+Proof.
+  induction X as [|h X IH]; intros W; [reflexivity|].
+  simpl in W. apply andb_true_iff in W. destruct W as [Wh WX].
+  unfold all_vals in *. simpl. rewrite lname_join, !canon_app, (IH WX).
+  destruct (bytes_eqb (lname h) n); [|reflexivity].
+  simpl h_vals. rewrite (header_ok_join h Wh). reflexivity.
+Qed.
+
+Lemma join_included hs : wf_headers hs = true -> included hs (join_hdrs hs).
+Proof.
+  unfold wf_headers. rewrite andb_true_iff, negb_true_iff. intros [OK ND] h Hin.
+  assert (Wh : header_ok h = true) by (rewrite forallb_forall in OK; apply OK; exact Hin).
+  apply in_split in Hin. destruct Hin as (pre & post & ->).
+  exists (h_vals (join_hdr h)). split.
+  - unfold join_hdrs. rewrite map_app. simpl map. apply carries_intro.
+    + simpl. apply lower_idem.
+    + pose proof (nodup_later_differ _ _ _ ND) as F. apply Forall_forall. intros h' Hh'.
+      apply in_map_iff in Hh'. destruct Hh' as (x & <- & Hx). rewrite Forall_forall in F. specialize (F x Hx).
+      change (lname (join_hdr x) <> lname h). rewrite lname_join. exact F.
+  - unfold same_values. simpl. symmetry. apply header_ok_join. exact Wh.
+Qed.
+
+Lemma transport_join_proof : transport_ok join_hdrs join_wire.
+Proof.
+  constructor; try reflexivity.
+  - exact join_included.
+  - intros w W. apply join_included. exact W.
+  - intros w W. apply join_included. exact W.
+  - intros w WH WT _ n I. simpl.
+    exists (all_vals (join_hdrs (w_headers w)) n ++ all_vals (join_hdrs (w_trailers w)) n). split.
+    + apply meta_merge_carries. rewrite !names_join. exact I.
+    + unfold same_values. rewrite !canon_app.
+      unfold wf_headers in WH, WT. apply andb_true_iff in WH, WT. destruct WH as [WH _], WT as [WT _].
+      rewrite (all_vals_join _ n WH), (all_vals_join _ n WT). reflexivity.
 Qed.
